@@ -11,6 +11,7 @@
 
 #include <stdexcept>
 #include <string>
+#include <type_traits>
 
 class Q;
 namespace vq {
@@ -25,7 +26,18 @@ class Q {
 
  public:
   Q() : v_(0) {}
+#ifdef VERIF_PERMISSIVE_Q
+  // Fallback flavour, used ONLY when the tree under test no longer compiles with the strict archetype (which is a C19
+  // violation and reported there): implicit construction from any built-in arithmetic type, so that the other
+  // properties can still be decided on such a tree instead of ending inconclusive.
+  template <class A, std::enable_if_t<std::is_arithmetic<A>::value, bool> = true>
+  Q(A a) {
+    if constexpr (std::is_floating_point<A>::value) v_ = mpq_class((double)a);
+    else v_ = mpq_class((long)a);
+  }
+#else
   explicit Q(int i) : v_(i) {}
+#endif
   Q(const Q &) = default;
   Q &operator=(const Q &) = default;
   Q(Q &&) = default;
